@@ -108,7 +108,9 @@ func (p *ConfigProp[T]) String() string {
 	return fmt.Sprintf("%v", p.value)
 }
 
-func (p ConfigProp[T]) MarshalJSON() ([]byte, error) {
+// Pointer receiver: a value receiver would copy the whole property, subscriber list included,
+// while a change notification or a new subscription writes it.
+func (p *ConfigProp[T]) MarshalJSON() ([]byte, error) {
 	return json.Marshal(p.value)
 }
 
